@@ -27,6 +27,7 @@ pub static DEF: PropertyDef = PropertyDef {
     timeout_s: 30,
     hang_class: None,
     sub_builds: &[],
+    stack_mb: 64,
 };
 
 pub fn kinds() -> Vec<InvalidKind> {
